@@ -1,26 +1,1216 @@
-//! C11: not implemented yet.
+//! C11: contract calls dispatch to the named method with intact arguments.
+//!
+//! Monitor: random contract ABIs with adversarially chosen method names are compiled by the real
+//! forc-test flow (`engine::run_unit_tests`): forc-test deploys the contract and runs `#[test]`
+//! functions which call it through `abi(Gen, CONTRACT_ID)` (the compiler-generated selector
+//! buffer) or through `std::codec::contract_call` with a hand-built method-name buffer - a real
+//! in-VM CALL either way. Every method logs a marker carrying its index and each decoded
+//! argument and returns a deterministic function of its arguments; right after the call the test
+//! logs the data the callee returned (the RETD pointer / length it finds in `ret` / `retl`) and the
+//! decoded result. The harness compares the receipts of every test with its own model of the
+//! calls (expected bytes come from the harness's own encoder of the ABI specification).
+//! Unknown and near-miss selectors must revert (no fallback) or run the fallback (declared).
+//! Shard 0 first runs the oracle on synthetic honest / corrupted receipts (`c11selftest`).
 use crate::common::*;
+use crate::engine::*;
 use crate::{Plan, Prop};
+use rand::seq::SliceRandom;
+use rand::{rngs::StdRng, Rng};
+use serde_json::{json, Value};
+use std::collections::BTreeSet;
+use std::fmt::Write;
+use std::panic::AssertUnwindSafe;
+
+#[path = "c11_abi.rs"]
+pub mod abi;
+use abi::*;
 
 pub static META: PropertyMeta = PropertyMeta {
     id: "C11",
     level: "exploration",
-    rule: "not implemented",
-    assumptions: &[],
-    floor_evaluations: 1,
-    floor_nontrivial: 2,
-    required_counters: &[],
+    rule: "random contract ABIs (1..12 methods; names from adversarial families: prefix chains, equal lengths, names that are substrings of the concatenated name table, single characters, names longer than 32/64 bytes, case variants, suffix families, raw identifiers; 0..4 arguments and a result over u8..u256, bool, b256, str[N], tuples, arrays, structs, enums, Vec<u64>, Bytes, String), with and without a #[fallback], x ~20-40 in-VM calls (through abi(..) casts and through std::codec::contract_call with hand-built selectors, known and unknown/near-miss names) x {debug, release}; an evaluation = one in-VM contract call whose receipts were compared with the model; non-trivial = the call carried at least one argument or returned a value or named no method; distinct = hash of (package source, profile, test, step)",
+    assumptions: &[
+        "fuel-vm and forc-test's deployment/executor are the trusted execution substrate",
+        "std::logging::log of a value emits its canonical ABI encoding (property C09's subject); the expected bytes are computed by the harness's own encoder",
+        "a call naming no method must revert when no fallback is declared (any revert code is accepted; 123 is counted)",
+    ],
+    floor_evaluations: 40,
+    floor_nontrivial: 20,
+    required_counters: &[
+        "packages_executed",
+        "methods",
+        "calls_abi_cast",
+        "calls_low_level_known_name",
+        "unknown_selector_with_fallback",
+        "unknown_selector_without_fallback",
+        "unknown_selector_reverted",
+        "fallback_ran",
+        "profile.debug",
+        "profile.release",
+        "oracle_selftest_corruption_classes_detected",
+        "class.prefix_of_another",
+        "class.equal_length",
+    ],
 };
 
 pub static PROP: Prop = Prop {
     meta: &META,
-    plan: |_t| Plan { nshards: 1, budget_s: 1.0, mem_gib: 0 },
-    shard: |_ctx| {
-        let mut r = ShardResult::default();
-        r.harness_fault = Some("not implemented".into());
-        r
+    plan: |t| {
+        // A forc-test build of one generated contract takes 4-15 s of CPU; on a loaded machine
+        // 16 concurrent builds can exceed the default 60 s per-case watchdog without any
+        // non-termination being involved. The shard processes inherit this setting.
+        if std::env::var("SWVERIF_CASE_WATCHDOG_S").is_err() {
+            std::env::set_var("SWVERIF_CASE_WATCHDOG_S", "300");
+        }
+        Plan { nshards: 16, budget_s: t.pick(50.0, 1000.0), mem_gib: 6 }
     },
-    replay: crate::no_replay,
+    shard,
+    replay,
     extra: crate::no_extra,
-    subcommand: crate::no_subcommand,
+    subcommand,
 };
+
+const MARK_METHOD: u64 = 0xC11A_0000;
+const MARK_UNIT: u64 = 0xC11B_0000;
+const MARK_FALLBACK: u64 = 0xC11F_A11B;
+const MARK_AFTER_REVERT: u64 = 0xC11D_EAD0;
+
+const KEYWORDS: &[&str] = &[
+    "abi", "as", "asm", "break", "const", "continue", "contract", "configurable", "dep", "else", "enum", "false", "fn", "for", "if", "impl", "in", "let", "library", "match", "mod", "mut", "predicate", "pub", "ref", "return", "script", "self", "Self", "storage", "str", "struct", "trait", "true", "type", "use", "where", "while", "u8", "u16", "u32", "u64", "u256", "b256", "bool", "panic", "main", "log", "encode",
+];
+
+#[derive(Clone, Debug)]
+enum Ret {
+    Unit,
+    Const(Ty, Val),
+    Echo(usize),
+    /// tuple of the listed arguments followed by a u64 constant that depends on the method index
+    Mix(Vec<usize>),
+}
+
+#[derive(Clone, Debug)]
+struct Method {
+    /// as written in the source (may carry r#)
+    name: String,
+    args: Vec<Ty>,
+    ret: Ret,
+}
+
+impl Method {
+    fn selector(&self) -> &str {
+        self.name.strip_prefix("r#").unwrap_or(&self.name)
+    }
+}
+
+#[derive(Clone, Debug)]
+enum Step {
+    Known { m: usize, args: Vec<Val>, low_level: bool },
+    Unknown { name: String },
+}
+
+#[derive(Clone, Debug)]
+struct TestFn {
+    steps: Vec<Step>,
+    /// the last step is an unknown selector and no fallback exists
+    expect_revert: bool,
+}
+
+#[derive(Clone, Debug)]
+struct Spec {
+    types: Types,
+    methods: Vec<Method>,
+    /// Some(None) = fallback returning unit
+    fallback: Option<Option<(Ty, Val)>>,
+    fallback_name: String,
+    tests: Vec<TestFn>,
+    family: &'static str,
+}
+
+// ------------------------------------------------------------------------------------------
+// names
+
+fn ok_ident(s: &str) -> bool {
+    let bare = s.strip_prefix("r#").unwrap_or(s);
+    if bare.is_empty() || bare.starts_with("__") {
+        return false;
+    }
+    let mut cs = bare.chars();
+    let f = cs.next().unwrap();
+    if !(f.is_ascii_alphabetic() || f == '_') {
+        return false;
+    }
+    if bare == "_" {
+        return false;
+    }
+    if !bare.chars().all(|c| c.is_ascii_alphanumeric() || c == '_') {
+        return false;
+    }
+    if !s.starts_with("r#") && KEYWORDS.contains(&bare) {
+        return false;
+    }
+    true
+}
+
+fn rand_ident(rng: &mut StdRng, len: usize) -> String {
+    const F: &[u8] = b"abcdefghijklmnopqrstuvwxyzABCDEFGHIJKLMNOPQRSTUVWXYZ";
+    const R: &[u8] = b"abcdefghijklmnopqrstuvwxyzABCDEFGHIJKLMNOPQRSTUVWXYZ0123456789_";
+    let mut s = String::new();
+    s.push(F[rng.gen_range(0..F.len())] as char);
+    while s.len() < len {
+        let c = R[rng.gen_range(0..R.len())] as char;
+        // no double underscores (reserved prefixes) to stay clearly inside the identifier grammar
+        if c == '_' && s.ends_with('_') {
+            continue;
+        }
+        s.push(c);
+    }
+    s
+}
+
+fn name_pool(rng: &mut StdRng, family: usize) -> (Vec<String>, &'static str) {
+    match family {
+        0 => {
+            let base = *choose(rng, &["transfer_from_account_to", "get_balance_of_owner_at", "set_owner_and_admin_id", "abcdefghijklmnopqrstuvwxyz", "mint_to_address_amount"]);
+            ((1..=base.len()).map(|l| base[..l].to_string()).collect(), "prefix_chain")
+        }
+        1 => {
+            let l = *choose(rng, &[1usize, 2, 3, 4, 8, 31, 32, 33]);
+            let mut v = BTreeSet::new();
+            if l <= 3 {
+                let letters: &[u8] = if l == 1 { b"abcdefghijklmnop" } else { b"ab" };
+                for _ in 0..200 {
+                    let s: String = (0..l).map(|_| letters[rng.gen_range(0..letters.len())] as char).collect();
+                    v.insert(s);
+                }
+            } else {
+                let base = rand_ident(rng, l);
+                v.insert(base.clone());
+                for _ in 0..40 {
+                    let mut b: Vec<u8> = base.clone().into_bytes();
+                    // one position differs: concentrate on the first, the last and the word boundaries
+                    let pos = *choose(rng, &[l - 1, l - 1, 0, 7.min(l - 1), 8.min(l - 1), l / 2]);
+                    let pos = if pos == 0 { 0 } else { pos };
+                    let c = if pos == 0 { b"abcdefghijklmnopqrstuvwxyz"[rng.gen_range(0..26)] } else { b"abcdefghijklmnopqrstuvwxyz0123456789"[rng.gen_range(0..36)] };
+                    b[pos] = c;
+                    v.insert(String::from_utf8(b).unwrap());
+                }
+            }
+            (v.into_iter().collect(), "equal_length")
+        }
+        2 => (["ab", "bc", "abbc", "bcab", "ca", "abc", "cab", "bca", "b", "a", "c", "cabbc", "bb", "abb", "bbc"].iter().map(|s| s.to_string()).collect(), "table_overlap"),
+        3 => {
+            let l = *choose(rng, &[33usize, 40, 64, 65, 70, 100]);
+            let base = rand_ident(rng, l);
+            let mut v = BTreeSet::new();
+            v.insert(base.clone());
+            for cut in [31usize, 32, 33, 63, 64, 65] {
+                if cut < l {
+                    v.insert(base[..cut].to_string());
+                }
+            }
+            for pos in [l - 1, 31, 32, 33.min(l - 1), 63.min(l - 1), 64.min(l - 1), l / 2] {
+                let mut b = base.clone().into_bytes();
+                b[pos] = if b[pos] == b'q' { b'z' } else { b'q' };
+                v.insert(String::from_utf8(b).unwrap());
+            }
+            v.insert(format!("{base}x"));
+            (v.into_iter().collect(), "long_names")
+        }
+        4 => (["foo", "Foo", "fOo", "foO", "FOO", "FOo", "fOO", "FoO", "foo_", "Foo_", "fo", "Fo"].iter().map(|s| s.to_string()).collect(), "case_variants"),
+        5 => (["get", "target", "budget", "forget", "et", "t", "widget", "get_", "_get", "getget", "ge", "g"].iter().map(|s| s.to_string()).collect(), "suffix_family"),
+        6 => (["r#fn", "r#struct", "r#abi", "r#impl", "r#let", "r#use", "r#match", "f", "fn_", "fnn", "structs", "abi_"].iter().map(|s| s.to_string()).collect(), "raw_identifiers"),
+        7 => {
+            let mut v = BTreeSet::new();
+            for _ in 0..24 {
+                let l = rng.gen_range(1..=14);
+                v.insert(rand_ident(rng, l));
+            }
+            (v.into_iter().collect(), "random")
+        }
+        _ => {
+            let mut v = BTreeSet::new();
+            for f in 0..8 {
+                let (p, _) = name_pool(rng, f);
+                for s in p.choose_multiple(rng, 3) {
+                    v.insert(s.clone());
+                }
+            }
+            (v.into_iter().collect(), "mixed")
+        }
+    }
+}
+
+/// Names that are NOT methods of the contract: near misses of the real ones and substrings of
+/// the concatenated name table.
+fn unknown_names(rng: &mut StdRng, real: &[String], want: usize) -> Vec<String> {
+    let mut c: Vec<String> = vec![String::new()];
+    for n in real {
+        if n.len() > 1 {
+            c.push(n[..n.len() - 1].to_string());
+            c.push(n[1..].to_string());
+        }
+        c.push(format!("{n}x"));
+        c.push(format!("{n}{n}"));
+        c.push(format!("{n}_"));
+        let mut b = n.clone().into_bytes();
+        b[0] = if b[0].is_ascii_uppercase() { b[0].to_ascii_lowercase() } else { b[0].to_ascii_uppercase() };
+        c.push(String::from_utf8(b).unwrap());
+        let mut b = n.clone().into_bytes();
+        let l = b.len() - 1;
+        b[l] = if b[l] == b'z' { b'y' } else { b'z' };
+        c.push(String::from_utf8(b).unwrap());
+        let mut b = n.clone().into_bytes();
+        b[0] = if b[0] == b'z' { b'y' } else { b'z' };
+        c.push(String::from_utf8(b).unwrap());
+    }
+    // substrings of the concatenated name table with the length of a real name
+    let table: String = real.concat();
+    for _ in 0..12 {
+        let l = real[rng.gen_range(0..real.len())].len();
+        if l <= table.len() {
+            let off = rng.gen_range(0..=table.len() - l);
+            c.push(table[off..off + l].to_string());
+        }
+    }
+    c.push("z".repeat(200));
+    c.push(rand_ident(rng, 6));
+    let mut seen = BTreeSet::new();
+    let mut out: Vec<String> = c.into_iter().filter(|s| !real.contains(s) && s.bytes().all(|b| b.is_ascii_alphanumeric() || b == b'_') && seen.insert(s.clone())).collect();
+    out.shuffle(rng);
+    // the empty name is always worth a call
+    if !out.iter().take(want).any(|s| s.is_empty()) && rng.gen_bool(0.5) {
+        out.insert(0, String::new());
+    }
+    out.truncate(want);
+    out
+}
+
+// ------------------------------------------------------------------------------------------
+// generator
+
+/// `variant` = shard + 5 * index: the name family and the presence of a fallback rotate with it
+/// (so that a short run still covers every family, with and without fallback); everything
+/// else is drawn from `rng`.
+fn gen_spec(rng: &mut StdRng, variant: u64) -> Spec {
+    let opts = TyOpts { arrays: true, strs: true, max_bytes: 160 };
+    let types = gen_types(rng, &opts);
+    let family = (variant % 9) as usize;
+    let (mut pool, family_name) = name_pool(rng, family);
+    pool.retain(|s| ok_ident(s));
+    pool.sort();
+    pool.dedup_by(|a, b| a.strip_prefix("r#").unwrap_or(a) == b.strip_prefix("r#").unwrap_or(b));
+    pool.shuffle(rng);
+    let want = match rng.gen_range(0..20) {
+        0 | 1 => 1,
+        2..=4 => 12,
+        _ => rng.gen_range(2..=11),
+    };
+    let n = want.min(pool.len()).max(1);
+    let names: Vec<String> = pool.into_iter().take(n).collect();
+    let mut methods = vec![];
+    for (idx, name) in names.iter().enumerate() {
+        let nargs = match rng.gen_range(0..10) {
+            0 => 0,
+            1..=3 => 1,
+            4..=6 => 2,
+            7 | 8 => 3,
+            _ => 4,
+        };
+        let args: Vec<Ty> = (0..nargs)
+            .map(|_| {
+                if rng.gen_bool(0.12) {
+                    choose(rng, &[Ty::VecU64, Ty::Bytes, Ty::StdString]).clone()
+                } else {
+                    gen_ty(rng, &types, 2, &opts)
+                }
+            })
+            .collect();
+        let ret = match rng.gen_range(0..10) {
+            0 | 1 => Ret::Unit,
+            2..=4 => {
+                let t = gen_ty(rng, &types, 2, &opts);
+                let v = gen_val(rng, &t, &types);
+                Ret::Const(t, v)
+            }
+            5 | 6 if nargs > 0 => Ret::Echo(rng.gen_range(0..nargs)),
+            _ if nargs > 0 => {
+                let k = rng.gen_range(1..=nargs.min(3));
+                let mut ix: Vec<usize> = (0..nargs).collect();
+                ix.shuffle(rng);
+                ix.truncate(k);
+                Ret::Mix(ix)
+            }
+            _ => Ret::Const(Ty::U64, Val::U(7000 + idx as u64)),
+        };
+        methods.push(Method { name: name.clone(), args, ret });
+    }
+    let fallback = if variant % 2 == 0 {
+        if rng.gen_bool(0.3) {
+            Some(None)
+        } else {
+            let t = gen_ty(rng, &types, 1, &opts);
+            let v = gen_val(rng, &t, &types);
+            Some(Some((t, v)))
+        }
+    } else {
+        None
+    };
+    let real: Vec<String> = methods.iter().map(|m| m.selector().to_string()).collect();
+    let fallback_name = if !real.iter().any(|r| r == "fallback") { "fallback".to_string() } else { "fb_handler".to_string() };
+
+    // calls: every method at least once, then random ones
+    let mut known: Vec<Step> = vec![];
+    let total = (methods.len() + rng.gen_range(6..=14)).min(30);
+    for k in 0..total {
+        let m = if k < methods.len() { k } else { rng.gen_range(0..methods.len()) };
+        let args = methods[m].args.iter().map(|t| gen_val(rng, t, &types)).collect();
+        known.push(Step::Known { m, args, low_level: rng.gen_bool(0.2) });
+    }
+    known.shuffle(rng);
+    let n_unknown = rng.gen_range(4..=8);
+    let unknown = unknown_names(rng, &real, n_unknown);
+    let mut tests = vec![];
+    let mut it = known.into_iter().peekable();
+    if fallback.is_some() {
+        // unknown selectors interleaved with known calls
+        let mut unk = unknown.into_iter().peekable();
+        while it.peek().is_some() || unk.peek().is_some() {
+            let mut steps = vec![];
+            let k = rng.gen_range(3..=6);
+            for _ in 0..k {
+                if unk.peek().is_some() && (rng.gen_bool(0.3) || it.peek().is_none()) {
+                    steps.push(Step::Unknown { name: unk.next().unwrap() });
+                } else if let Some(s) = it.next() {
+                    steps.push(s);
+                }
+            }
+            if !steps.is_empty() {
+                tests.push(TestFn { steps, expect_revert: false });
+            }
+        }
+    } else {
+        for name in unknown {
+            let mut steps = vec![];
+            if rng.gen_bool(0.5) {
+                if let Some(s) = it.next() {
+                    steps.push(s);
+                }
+            }
+            steps.push(Step::Unknown { name });
+            tests.push(TestFn { steps, expect_revert: true });
+        }
+        while it.peek().is_some() {
+            let k = rng.gen_range(3..=6);
+            let steps: Vec<Step> = it.by_ref().take(k).collect();
+            tests.push(TestFn { steps, expect_revert: false });
+        }
+    }
+    Spec { types, methods, fallback, fallback_name, tests, family: family_name }
+}
+
+fn ret_ty(m: &Method) -> Option<Ty> {
+    match &m.ret {
+        Ret::Unit => None,
+        Ret::Const(t, _) => Some(t.clone()),
+        Ret::Echo(k) => Some(m.args[*k].clone()),
+        Ret::Mix(ix) => {
+            let mut ts: Vec<Ty> = ix.iter().map(|k| m.args[*k].clone()).collect();
+            ts.push(Ty::U64);
+            Some(Ty::Tuple(ts))
+        }
+    }
+}
+
+fn ret_val(idx: usize, m: &Method, args: &[Val]) -> Option<Val> {
+    match &m.ret {
+        Ret::Unit => None,
+        Ret::Const(_, v) => Some(v.clone()),
+        Ret::Echo(k) => Some(args[*k].clone()),
+        Ret::Mix(ix) => {
+            let mut vs: Vec<Val> = ix.iter().map(|k| args[*k].clone()).collect();
+            vs.push(Val::U(mix_const(idx)));
+            Some(Val::Tuple(vs))
+        }
+    }
+}
+
+fn mix_const(idx: usize) -> u64 {
+    0x5EED_0000_0000_0000u64 + 1_000_003u64 * (idx as u64 + 1)
+}
+
+fn args_tuple_ty(types: &Types, args: &[Ty]) -> String {
+    if args.is_empty() {
+        "()".into()
+    } else {
+        format!("({},)", args.iter().map(|t| types.name(t)).collect::<Vec<_>>().join(", "))
+    }
+}
+
+fn render(spec: &Spec) -> String {
+    let t = &spec.types;
+    let mut s = String::new();
+    s.push_str("contract;\n\nuse std::codec::*;\nuse std::bytes::Bytes;\nuse std::string::String;\n\n");
+    s.push_str(&t.decls());
+    s.push_str("\nabi Gen {\n");
+    let sig = |m: &Method| -> String {
+        let ps: Vec<String> = m.args.iter().enumerate().map(|(i, a)| format!("x{i}: {}", t.name(a))).collect();
+        let r = ret_ty(m).map(|r| format!(" -> {}", t.name(&r))).unwrap_or_default();
+        format!("fn {}({}){}", m.name, ps.join(", "), r)
+    };
+    for m in &spec.methods {
+        let _ = writeln!(s, "    {};", sig(m));
+    }
+    s.push_str("}\n\nimpl Gen for Contract {\n");
+    for (idx, m) in spec.methods.iter().enumerate() {
+        let _ = writeln!(s, "    {} {{", sig(m));
+        let _ = writeln!(s, "        log({}u64);", MARK_METHOD + idx as u64);
+        for i in 0..m.args.len() {
+            let _ = writeln!(s, "        log(x{i});");
+        }
+        match &m.ret {
+            Ret::Unit => {}
+            Ret::Const(ty, v) => {
+                let _ = writeln!(s, "        {}", t.lit(ty, v));
+            }
+            Ret::Echo(k) => {
+                let _ = writeln!(s, "        x{k}");
+            }
+            Ret::Mix(ix) => {
+                let mut parts: Vec<String> = ix.iter().map(|k| format!("x{k}")).collect();
+                parts.push(format!("{}u64", mix_const(idx)));
+                let _ = writeln!(s, "        ({})", parts.join(", "));
+            }
+        }
+        s.push_str("    }\n");
+    }
+    s.push_str("}\n\n");
+    if let Some(fb) = &spec.fallback {
+        match fb {
+            None => {
+                let _ = writeln!(s, "#[fallback]\nfn {}() {{\n    log({}u64);\n}}\n", spec.fallback_name, MARK_FALLBACK);
+            }
+            Some((ty, v)) => {
+                let _ = writeln!(s, "#[fallback]\nfn {}() -> {} {{\n    log({}u64);\n    {}\n}}\n", spec.fallback_name, t.name(ty), MARK_FALLBACK, t.lit(ty, v));
+            }
+        }
+    }
+    // the data the last called contract returned: RETD's pointer and length as the caller sees them
+    s.push_str("fn ret_data() -> raw_slice {\n    let p = asm() {\n        ret: raw_ptr\n    };\n    let l = asm() {\n        retl: u64\n    };\n    raw_slice::from_parts::<u8>(p, l)\n}\n\n");
+    for (ti, test) in spec.tests.iter().enumerate() {
+        let _ = writeln!(s, "#[test]\nfn t{ti}() {{");
+        if test.steps.iter().any(|st| matches!(st, Step::Known { low_level: false, .. })) {
+            s.push_str("    let c = abi(Gen, CONTRACT_ID);\n");
+        }
+        for (si, st) in test.steps.iter().enumerate() {
+            match st {
+                Step::Known { m, args, low_level } => {
+                    let meth = &spec.methods[*m];
+                    let lits: Vec<String> = meth.args.iter().zip(args).map(|(ty, v)| t.lit(ty, v)).collect();
+                    let rt = ret_ty(meth);
+                    let rname = rt.as_ref().map(|r| t.name(r)).unwrap_or_else(|| "()".into());
+                    let call = if *low_level {
+                        let tuple = if lits.is_empty() { "()".to_string() } else { format!("({},)", lits.join(", ")) };
+                        format!("contract_call::<{}, {}>(CONTRACT_ID, encode(\"{}\"), {}, 0u64, b256::zero(), u64::max())", rname, args_tuple_ty(t, &meth.args), meth.selector(), tuple)
+                    } else {
+                        format!("c.{}({})", meth.name, lits.join(", "))
+                    };
+                    if rt.is_some() {
+                        let _ = writeln!(s, "    let r{si}: {rname} = {call};\n    log(ret_data());\n    log(r{si});");
+                    } else {
+                        let _ = writeln!(s, "    {call};\n    log(ret_data());\n    log({}u64);", MARK_UNIT + si as u64);
+                    }
+                }
+                Step::Unknown { name } => {
+                    let (rname, has) = match &spec.fallback {
+                        Some(Some((ty, _))) => (t.name(ty), true),
+                        _ => ("()".to_string(), false),
+                    };
+                    let call = format!("contract_call::<{rname}, ()>(CONTRACT_ID, encode(\"{name}\"), (), 0u64, b256::zero(), u64::max())");
+                    if has {
+                        let _ = writeln!(s, "    let r{si}: {rname} = {call};\n    log(ret_data());\n    log(r{si});");
+                    } else if test.expect_revert {
+                        let _ = writeln!(s, "    {call};\n    log({MARK_AFTER_REVERT}u64);");
+                    } else {
+                        let _ = writeln!(s, "    {call};\n    log(ret_data());\n    log({}u64);", MARK_UNIT + si as u64);
+                    }
+                }
+            }
+        }
+        s.push_str("}\n\n");
+    }
+    s
+}
+
+// ------------------------------------------------------------------------------------------
+// observation: the log receipts of one test, in order
+
+/// A log entry of the test script (caller) or of the called contract (callee).
+#[derive(Clone, Debug, PartialEq, Eq)]
+struct Obs {
+    /// emitted inside the called contract
+    callee: bool,
+    data: Vec<u8>,
+}
+
+struct RawTest {
+    name: String,
+    passed: bool,
+    outcome: Outcome,
+    obs: Vec<Obs>,
+    /// number of different non-zero contract ids seen in the receipts
+    contract_ids: usize,
+}
+
+fn raw_of(t: &UnitTestOutcome) -> RawTest {
+    let nonzero = |id: &String| id.bytes().any(|b| b != b'0');
+    let ids: BTreeSet<&String> = t.logs.iter().map(|(id, _, _)| id).filter(|id| nonzero(id)).collect();
+    RawTest { name: t.name.clone(), passed: t.passed, outcome: t.outcome.clone(), obs: t.logs.iter().map(|(id, _, d)| Obs { callee: nonzero(id), data: d.clone() }).collect(), contract_ids: ids.len() }
+}
+
+/// what `log(raw_slice::from_parts::<u8>(ret, retl))` emits in the caller right after the call:
+/// the data the callee returned (RETD pointer and length), length-prefixed as every raw_slice
+fn returned_log(data: &[u8]) -> Vec<u8> {
+    let mut v = (data.len() as u64).to_be_bytes().to_vec();
+    v.extend(data);
+    v
+}
+
+// ------------------------------------------------------------------------------------------
+// model of the receipts
+
+#[derive(Clone, Debug, PartialEq)]
+enum Role {
+    Marker,
+    Arg(usize),
+    /// the data returned by the callee (RETD pointer / length registers read by the caller)
+    Returned,
+    /// what the caller decoded and logged
+    Result,
+    FallbackMarker,
+    FallbackReturned,
+    FallbackResult,
+}
+
+struct Expected {
+    entry: Obs,
+    step: usize,
+    role: Role,
+}
+
+fn expected_of(spec: &Spec, test: &TestFn) -> Vec<Expected> {
+    let t = &spec.types;
+    let u = |x: u64| x.to_be_bytes().to_vec();
+    let log = |callee: bool, data: Vec<u8>| Obs { callee, data };
+    let mut out = vec![];
+    for (si, st) in test.steps.iter().enumerate() {
+        match st {
+            Step::Known { m, args, .. } => {
+                let meth = &spec.methods[*m];
+                out.push(Expected { entry: log(true, u(MARK_METHOD + *m as u64)), step: si, role: Role::Marker });
+                for (i, (ty, v)) in meth.args.iter().zip(args).enumerate() {
+                    out.push(Expected { entry: log(true, t.encoded(ty, v)), step: si, role: Role::Arg(i) });
+                }
+                match (ret_ty(meth), ret_val(*m, meth, args)) {
+                    (Some(rt), Some(rv)) => {
+                        let data = t.encoded(&rt, &rv);
+                        out.push(Expected { entry: log(false, returned_log(&data)), step: si, role: Role::Returned });
+                        out.push(Expected { entry: log(false, data), step: si, role: Role::Result });
+                    }
+                    _ => {
+                        out.push(Expected { entry: log(false, returned_log(&[])), step: si, role: Role::Returned });
+                        out.push(Expected { entry: log(false, u(MARK_UNIT + si as u64)), step: si, role: Role::Result });
+                    }
+                }
+            }
+            Step::Unknown { .. } => match &spec.fallback {
+                None => break,
+                Some(fb) => {
+                    out.push(Expected { entry: log(true, u(MARK_FALLBACK)), step: si, role: Role::FallbackMarker });
+                    match fb {
+                        Some((ty, v)) => {
+                            let data = t.encoded(ty, v);
+                            out.push(Expected { entry: log(false, returned_log(&data)), step: si, role: Role::FallbackReturned });
+                            out.push(Expected { entry: log(false, data), step: si, role: Role::FallbackResult });
+                        }
+                        None => {
+                            out.push(Expected { entry: log(false, returned_log(&[])), step: si, role: Role::FallbackReturned });
+                            out.push(Expected { entry: log(false, u(MARK_UNIT + si as u64)), step: si, role: Role::FallbackResult });
+                        }
+                    }
+                }
+            },
+        }
+    }
+    out
+}
+
+fn is_method_marker(spec: &Spec, e: &Obs) -> Option<usize> {
+    if e.callee && e.data.len() == 8 {
+        let v = u64::from_be_bytes(e.data.clone().try_into().unwrap());
+        if v >= MARK_METHOD && v < MARK_METHOD + spec.methods.len() as u64 {
+            return Some((v - MARK_METHOD) as usize);
+        }
+    }
+    None
+}
+
+fn step_desc(spec: &Spec, st: &Step) -> String {
+    match st {
+        Step::Known { m, low_level, .. } => format!("call of method #{m} `{}` ({})", spec.methods[*m].name, if *low_level { "std::codec::contract_call" } else { "abi cast" }),
+        Step::Unknown { name } => format!("call of unknown selector \"{}\"", if name.len() > 40 { format!("{}..", &name[..40]) } else { name.clone() }),
+    }
+}
+
+fn who(o: &Obs) -> &'static str {
+    if o.callee {
+        "a callee log"
+    } else {
+        "a caller log"
+    }
+}
+
+/// Compare one executed test with the model. Returns Err((kind, description)) on a refutation.
+fn check_test(spec: &Spec, test: &TestFn, out: &RawTest, res: &mut ShardResult) -> Result<(), (String, String)> {
+    let fb_mark = MARK_FALLBACK.to_be_bytes().to_vec();
+    let observed = &out.obs;
+    // everything emitted by a callee must come from one contract
+    if out.contract_ids > 1 {
+        return Err(("receipts-from-several-contracts".into(), format!("callee receipts carry {} different contract ids", out.contract_ids)));
+    }
+    let expected = expected_of(spec, test);
+    for (k, ex) in expected.iter().enumerate() {
+        let st = &test.steps[ex.step];
+        match observed.get(k) {
+            None => {
+                let why = format!("{:?}", out.outcome);
+                return Err((
+                    if out.outcome.reverted() { "unexpected-revert".into() } else { "missing-receipt".into() },
+                    format!("step {} ({}): the receipts end after {} entries (outcome {why}); expected {:?} entry {}", ex.step, step_desc(spec, st), observed.len(), ex.role, short_hex(&ex.entry.data)),
+                ));
+            }
+            Some(ob) if *ob == ex.entry => {}
+            Some(ob) => {
+                let kind = match ex.role {
+                    Role::Marker => {
+                        if ob.callee && ob.data == fb_mark {
+                            "known-name-reached-fallback"
+                        } else if is_method_marker(spec, ob).is_some() {
+                            "wrong-method-executed"
+                        } else {
+                            "method-marker-mismatch"
+                        }
+                    }
+                    Role::Arg(_) => "argument-mismatch",
+                    Role::Returned => "returned-data-mismatch",
+                    Role::Result => "result-mismatch",
+                    Role::FallbackMarker => {
+                        if is_method_marker(spec, ob).is_some() {
+                            "unknown-selector-executed-a-method"
+                        } else {
+                            "fallback-not-run"
+                        }
+                    }
+                    Role::FallbackReturned => "fallback-returned-data-mismatch",
+                    Role::FallbackResult => "fallback-result-mismatch",
+                };
+                let extra = match (is_method_marker(spec, ob), &ex.role) {
+                    (Some(j), Role::Marker | Role::FallbackMarker) => format!(" (that is the marker of method #{j} `{}`)", spec.methods[j].name),
+                    _ => String::new(),
+                };
+                return Err((kind.into(), format!("step {} ({}): {:?} entry: expected {} as {}, observed {} as {}{extra}", ex.step, step_desc(spec, st), ex.role, short_hex(&ex.entry.data), who(&ex.entry), short_hex(&ob.data), who(ob))));
+            }
+        }
+    }
+    if test.expect_revert {
+        let st = test.steps.last().unwrap();
+        if observed.len() > expected.len() {
+            let ob = &observed[expected.len()];
+            let kind = if is_method_marker(spec, ob).is_some() { "unknown-selector-executed-a-method" } else { "unknown-selector-did-not-revert" };
+            return Err((kind.into(), format!("{} without a fallback: execution continued, next entry {} as {}", step_desc(spec, st), short_hex(&ob.data), who(ob))));
+        }
+        if !out.outcome.reverted() {
+            return Err(("unknown-selector-did-not-revert".into(), format!("{} without a fallback: outcome {:?}", step_desc(spec, st), out.outcome)));
+        }
+        res.count("unknown_selector_reverted");
+        if out.outcome == Outcome::Revert(123) {
+            res.count("unknown_selector_revert_code_123");
+        }
+    } else {
+        if observed.len() > expected.len() {
+            let ob = &observed[expected.len()];
+            return Err(("extra-receipt".into(), format!("{} unexpected entries after the last step, first {} as {}", observed.len() - expected.len(), short_hex(&ob.data), who(ob))));
+        }
+        if out.outcome.reverted() || !out.passed {
+            return Err(("unexpected-revert".into(), format!("all entries present but the test ended with {:?}", out.outcome)));
+        }
+    }
+    Ok(())
+}
+
+// ------------------------------------------------------------------------------------------
+// evidence about the name set
+
+fn note_classes(spec: &Spec, res: &mut ShardResult) {
+    let names: Vec<&str> = spec.methods.iter().map(|m| m.selector()).collect();
+    let n = names.len();
+    res.count(&format!("family.{}", spec.family));
+    if n == 1 {
+        res.count("class.single_method");
+    }
+    if n == 12 {
+        res.count("class.twelve_methods");
+    }
+    res.max("max_methods", n as u64);
+    let mut prefix = false;
+    let mut eqlen = false;
+    let mut substr = false;
+    for i in 0..n {
+        for j in 0..n {
+            if i == j {
+                continue;
+            }
+            if names[j].starts_with(names[i]) {
+                prefix = true;
+            }
+            if names[i].len() == names[j].len() {
+                eqlen = true;
+            }
+            if names[j].contains(names[i]) {
+                substr = true;
+            }
+        }
+    }
+    // a name that already occurs inside the concatenation of the names declared before it
+    let mut table = String::new();
+    let mut in_table = false;
+    let mut across = false;
+    for (i, nm) in names.iter().enumerate() {
+        if let Some(off) = table.find(nm) {
+            in_table = true;
+            // does the occurrence straddle two earlier names?
+            let mut pos = 0;
+            let mut inside_one = false;
+            for prev in &names[..i] {
+                if !table[pos..].starts_with(prev) {
+                    continue;
+                }
+                if off >= pos && off + nm.len() <= pos + prev.len() {
+                    inside_one = true;
+                }
+                pos += prev.len();
+            }
+            if !inside_one {
+                across = true;
+            }
+        } else {
+            table.push_str(nm);
+        }
+    }
+    if prefix {
+        res.count("class.prefix_of_another");
+    }
+    if eqlen {
+        res.count("class.equal_length");
+    }
+    if substr {
+        res.count("class.substring_of_another");
+    }
+    if in_table {
+        res.count("class.found_in_name_table");
+    }
+    if across {
+        res.count("class.straddles_table_entries");
+    }
+    if names.iter().any(|s| s.len() == 1) {
+        res.count("class.single_character_name");
+    }
+    if names.iter().any(|s| s.len() > 32) {
+        res.count("class.name_longer_than_32");
+    }
+    if names.iter().any(|s| s.len() > 64) {
+        res.count("class.name_longer_than_64");
+    }
+    if spec.methods.iter().any(|m| m.name.starts_with("r#")) {
+        res.count("class.raw_identifier");
+    }
+    if (0..n).any(|i| (0..n).any(|j| i != j && names[i].eq_ignore_ascii_case(names[j]))) {
+        res.count("class.case_variants");
+    }
+    res.add("methods", n as u64);
+    let mut cs = BTreeSet::new();
+    for m in &spec.methods {
+        res.count(&format!("arity.{}", m.args.len()));
+        let mut a = BTreeSet::new();
+        for t in &m.args {
+            spec.types.ctors(t, &mut a);
+        }
+        for c in &a {
+            cs.insert(format!("ctor.arg.{c}"));
+        }
+        let mut r = BTreeSet::new();
+        match ret_ty(m) {
+            Some(t) => spec.types.ctors(&t, &mut r),
+            None => {
+                r.insert("unit");
+            }
+        }
+        for c in &r {
+            cs.insert(format!("ctor.ret.{c}"));
+        }
+        res.count(match m.ret {
+            Ret::Unit => "ret_kind.unit",
+            Ret::Const(..) => "ret_kind.constant",
+            Ret::Echo(_) => "ret_kind.echo_argument",
+            Ret::Mix(_) => "ret_kind.tuple_of_arguments_and_index",
+        });
+    }
+    for c in cs {
+        res.count(&c);
+    }
+    match &spec.fallback {
+        None => res.count("packages_without_fallback"),
+        Some(None) => res.count("packages_with_unit_fallback"),
+        Some(Some(_)) => res.count("packages_with_returning_fallback"),
+    }
+}
+
+// ------------------------------------------------------------------------------------------
+// running
+
+struct CaseId {
+    seed: u64,
+    shard: u64,
+    index: u64,
+}
+
+fn run_profile(spec: &Spec, src: &str, dir: &std::path::Path, profile: Profile, id: &CaseId, res: &mut ShardResult, only_test: Option<&str>) {
+    let r = catch(AssertUnwindSafe(|| run_unit_tests(dir, profile, 1, None).map(|r| r.tests.iter().map(raw_of).collect::<Vec<RawTest>>())));
+    let run = match r {
+        Err((loc, msg)) => {
+            res.count("compiler_panics");
+            res.inconclusive(format!("forc test panicked at {loc}: {}", msg.chars().take(120).collect::<String>()));
+            return;
+        }
+        Ok(Err(e)) => {
+            res.count("packages_rejected");
+            let n = res.counters.get("packages_rejected").copied().unwrap_or(0);
+            let msg = if n <= 2 { diagnose_pkg(dir, profile).first().cloned().unwrap_or_else(|| format!("no diagnostics ({e})")) } else { "not diagnosed".to_string() };
+            let b = bucket(&msg);
+            res.count(&format!("rejected.{b}"));
+            res.inconclusive(format!("generated package rejected ({}): {msg}", profile.name()));
+            let keep = work_dir("C11").join("rejected");
+            std::fs::create_dir_all(&keep).ok();
+            let f = keep.join(format!("{}_{}.sw", profile.name(), b.replace([' ', '#'], "_")));
+            if !f.exists() {
+                let _ = std::fs::write(&f, format!("// {msg}\n// seed {} shard {} index {}\n{src}", id.seed, id.shard, id.index));
+            }
+            return;
+        }
+        Ok(Ok(run)) => run,
+    };
+    res.count("packages_executed");
+    res.count(&format!("profile.{}", profile.name()));
+    for (ti, test) in spec.tests.iter().enumerate() {
+        let name = format!("t{ti}");
+        if let Some(o) = only_test {
+            if o != name {
+                continue;
+            }
+        }
+        let Some(out) = run.iter().find(|t| t.name == name) else {
+            res.inconclusive(format!("test {name} was not run by forc test"));
+            continue;
+        };
+        res.count("tests_run");
+        match check_test(spec, test, out, res) {
+            Ok(()) => {
+                for (si, st) in test.steps.iter().enumerate() {
+                    res.evaluations += 1;
+                    let nontrivial = match st {
+                        Step::Known { m, low_level, .. } => {
+                            res.count(if *low_level { "calls_low_level_known_name" } else { "calls_abi_cast" });
+                            res.add("arguments_compared", spec.methods[*m].args.len() as u64);
+                            res.count("results_compared");
+                            res.count("returned_data_compared");
+                            !spec.methods[*m].args.is_empty() || !matches!(spec.methods[*m].ret, Ret::Unit)
+                        }
+                        Step::Unknown { name } => {
+                            if spec.fallback.is_some() {
+                                res.count("unknown_selector_with_fallback");
+                                res.count("fallback_ran");
+                            } else {
+                                res.count("unknown_selector_without_fallback");
+                            }
+                            if name.is_empty() {
+                                res.count("unknown_selector_empty_name");
+                            }
+                            true
+                        }
+                    };
+                    if nontrivial {
+                        res.note_nontrivial(hash64(format!("{src}|{}|{name}|{si}", profile.name()).as_bytes()));
+                    }
+                }
+            }
+            Err((kind, desc)) => {
+                res.evaluations += 1;
+                res.violation(
+                    format!("{kind}:{:016x}", hash64(src.as_bytes())),
+                    format!("[{} test {name}, {} methods, names {:?}] {desc}", profile.name(), spec.methods.len(), spec.methods.iter().map(|m| short_name(&m.name)).collect::<Vec<_>>()),
+                    json!({"seed": id.seed, "shard": id.shard, "index": id.index, "profile": profile.name(), "test": name, "source": src}),
+                );
+            }
+        }
+    }
+    if res.samples.is_empty() {
+        res.sample(json!({"profile": profile.name(), "methods": spec.methods.iter().map(|m| m.name.clone()).collect::<Vec<_>>(), "fallback": spec.fallback.is_some(), "tests": spec.tests.len(), "source": src}));
+    }
+}
+
+fn short_name(s: &str) -> String {
+    if s.len() > 24 {
+        format!("{}..({})", &s[..24], s.len())
+    } else {
+        s.to_string()
+    }
+}
+
+fn shard(ctx: &ShardCtx) -> ShardResult {
+    let mut res = ShardResult::default();
+    if ctx.shard == 0 && ctx.first_index == 0 {
+        // calibration of the oracle on synthetic honest / corrupted observations (milliseconds)
+        let (code, classes) = selftest(false);
+        res.add("oracle_selftest_corruption_classes_detected", classes as u64);
+        if code != 0 {
+            res.harness_fault = Some("the oracle self-test failed: run `swverif c11selftest`".into());
+            return res;
+        }
+    }
+    let mut i = ctx.first_index;
+    while ctx.time_left() {
+        let mut rng = ctx.rng(i);
+        let spec = gen_spec(&mut rng, ctx.shard + 5 * i);
+        let src = render(&spec);
+        journal_current(ctx, &src);
+        let dir = ctx.work().join(format!("pkg{i}"));
+        let _ = std::fs::remove_dir_all(&dir);
+        if let Err(e) = write_pkg(&dir, "gencontract", &src, true) {
+            res.harness_fault = Some(format!("cannot write package: {e}"));
+            return res;
+        }
+        note_classes(&spec, &mut res);
+        res.count("packages_generated");
+        let id = CaseId { seed: ctx.seed, shard: ctx.shard, index: i };
+        // alternate the profile that goes first so that both are covered when time is short
+        let order = if (i + ctx.shard / 2) % 2 == 0 { [Profile::Debug, Profile::Release] } else { [Profile::Release, Profile::Debug] };
+        for (k, profile) in order.into_iter().enumerate() {
+            if k == 1 && !ctx.time_left() {
+                break;
+            }
+            ctx.begin_case(i, &format!("// {} seed {} shard {} index {i}\n{src}", profile.name(), ctx.seed, ctx.shard), &res);
+            run_profile(&spec, &src, &dir, profile, &id, &mut res, None);
+            ctx.end_case();
+        }
+        let _ = std::fs::remove_dir_all(&dir);
+        i += 1;
+        write_partial(ctx, &res);
+    }
+    res
+}
+
+fn replay(case: &Value) -> ShardResult {
+    let mut res = ShardResult::default();
+    let (Some(seed), Some(sh), Some(index)) = (case["seed"].as_u64(), case["shard"].as_u64(), case["index"].as_u64()) else {
+        res.harness_fault = Some("replay case lacks seed/shard/index".into());
+        return res;
+    };
+    let mut rng = rng_for(seed, sh, index);
+    let spec = gen_spec(&mut rng, sh + 5 * index);
+    let src = render(&spec);
+    if case["source"].as_str() != Some(src.as_str()) {
+        res.harness_fault = Some("the generator no longer reproduces the recorded package; run `swverif c11probe <file.sw>` on the recorded source".into());
+        return res;
+    }
+    let dir = work_dir("C11").join("replay");
+    clean_dir(&dir);
+    if let Err(e) = write_pkg(&dir, "gencontract", &src, true) {
+        res.harness_fault = Some(format!("cannot write package: {e}"));
+        return res;
+    }
+    let profile = if case["profile"].as_str() == Some("release") { Profile::Release } else { Profile::Debug };
+    let id = CaseId { seed, shard: sh, index };
+    run_profile(&spec, &src, &dir, profile, &id, &mut res, case["test"].as_str());
+    res
+}
+
+
+// ------------------------------------------------------------------------------------------
+// oracle self-test on synthetic observations (no compiler involved)
+
+fn synth_outcome(name: &str, entries: &[Obs], reverted: bool) -> RawTest {
+    RawTest { name: name.to_string(), passed: !reverted, outcome: if reverted { Outcome::Revert(123) } else { Outcome::Return(0) }, obs: entries.to_vec(), contract_ids: 1 }
+}
+
+/// `swverif c11selftest`: feed the comparison with honest and corrupted receipts
+fn selftest(verbose: bool) -> (i32, usize) {
+    let mut failures = 0;
+    let mut seen: BTreeSet<String> = BTreeSet::new();
+    let mut honest_ok = 0;
+    for v in 0..60u64 {
+        let mut rng = rng_for(99, v, 0);
+        let spec = gen_spec(&mut rng, v);
+        for (ti, test) in spec.tests.iter().enumerate() {
+            let name = format!("t{ti}");
+            let exp = expected_of(&spec, test);
+            let honest: Vec<Obs> = exp.iter().map(|e| e.entry.clone()).collect();
+            let mut scratch = ShardResult::default();
+            match check_test(&spec, test, &synth_outcome(&name, &honest, test.expect_revert), &mut scratch) {
+                Ok(()) => honest_ok += 1,
+                Err((k, d)) => {
+                    eprintln!("FAIL honest receipts rejected: {k}: {d}");
+                    failures += 1;
+                }
+            }
+            let mut expect = |label: &str, entries: Vec<Obs>, reverted: bool, want: &[&str]| {
+                let mut scratch = ShardResult::default();
+                match check_test(&spec, test, &synth_outcome(&name, &entries, reverted), &mut scratch) {
+                    Err((k, _)) if want.contains(&k.as_str()) => {
+                        seen.insert(format!("{label} -> {k}"));
+                    }
+                    other => {
+                        eprintln!("FAIL {label}: expected one of {want:?}, got {:?}", other.map_err(|e| e.0));
+                        failures += 1;
+                    }
+                }
+            };
+            for (k, e) in exp.iter().enumerate() {
+                match e.role {
+                    Role::Marker => {
+                        let Step::Known { m, .. } = &test.steps[e.step] else { continue };
+                        if spec.methods.len() > 1 {
+                            let other = (m + 1) % spec.methods.len();
+                            let mut x = honest.clone();
+                            x[k].data = (MARK_METHOD + other as u64).to_be_bytes().to_vec();
+                            expect("another method's marker", x, test.expect_revert, &["wrong-method-executed"]);
+                        }
+                        let mut x = honest.clone();
+                        x[k].data = MARK_FALLBACK.to_be_bytes().to_vec();
+                        expect("fallback marker for a known name", x, test.expect_revert, &["known-name-reached-fallback"]);
+                        let mut x = honest.clone();
+                        x.truncate(k);
+                        expect("receipts end before the call", x, true, &["unexpected-revert"]);
+                    }
+                    Role::Arg(i) => {
+                        let mut x = honest.clone();
+                        if x[k].data.is_empty() {
+                            x[k].data.push(0);
+                        } else {
+                            let l = x[k].data.len() - 1;
+                            x[k].data[l] ^= 1;
+                        }
+                        expect("argument with a flipped bit", x, test.expect_revert, &["argument-mismatch"]);
+                        if i > 0 && honest[k].data != honest[k - 1].data {
+                            let mut x = honest.clone();
+                            x.swap(k, k - 1);
+                            expect("two arguments swapped", x, test.expect_revert, &["argument-mismatch"]);
+                        }
+                    }
+                    Role::Result => {
+                        let mut x = honest.clone();
+                        x[k].data.push(0);
+                        expect("result with a trailing byte", x, test.expect_revert, &["result-mismatch"]);
+                    }
+                    Role::Returned => {
+                        let mut x = honest.clone();
+                        x[k].data.pop();
+                        expect("returned data one byte short", x, test.expect_revert, &["returned-data-mismatch"]);
+                        let mut x = honest.clone();
+                        x.remove(k);
+                        expect("return receipt missing", x, test.expect_revert, &["returned-data-mismatch"]);
+                    }
+                    Role::FallbackReturned => {
+                        let mut x = honest.clone();
+                        x[k].data.push(1);
+                        expect("fallback returned data corrupted", x, false, &["fallback-returned-data-mismatch"]);
+                    }
+                    Role::FallbackMarker => {
+                        let mut x = honest.clone();
+                        x[k].data = MARK_METHOD.to_be_bytes().to_vec();
+                        expect("method marker for an unknown selector", x, false, &["unknown-selector-executed-a-method"]);
+                        let mut x = honest.clone();
+                        x.remove(k);
+                        expect("fallback marker missing", x, false, &["fallback-not-run"]);
+                    }
+                    Role::FallbackResult => {
+                        let mut x = honest.clone();
+                        x[k].data.push(7);
+                        expect("fallback result corrupted", x, false, &["fallback-result-mismatch"]);
+                    }
+                }
+            }
+            if test.expect_revert {
+                let mut x = honest.clone();
+                x.push(Obs { callee: false, data: MARK_AFTER_REVERT.to_be_bytes().to_vec() });
+                expect("unknown selector without fallback returns", x, false, &["unknown-selector-did-not-revert"]);
+                let mut x = honest.clone();
+                x.push(Obs { callee: true, data: MARK_METHOD.to_be_bytes().to_vec() });
+                expect("unknown selector without fallback runs method 0", x, false, &["unknown-selector-executed-a-method"]);
+                expect("unknown selector without fallback: no revert, no log", honest.clone(), false, &["unknown-selector-did-not-revert"]);
+            }
+        }
+    }
+    if verbose {
+        for s in &seen {
+            println!("ok   {s}");
+        }
+        println!("c11selftest: {honest_ok} honest tests accepted, {} corruption classes detected, {failures} failures", seen.len());
+    }
+    (if failures == 0 && honest_ok > 0 && seen.len() >= 10 { 0 } else { 1 }, seen.len())
+}
+
+/// `swverif c11probe <file.sw>`: build a contract package with forc test (both profiles), print slots, outcomes and logs
+/// `swverif c11gen <seed> <shard> <index>`: print the generated package
+fn subcommand(args: &[String]) -> Option<i32> {
+    match args.first().map(|s| s.as_str()) {
+        Some("c11selftest") => Some(selftest(true).0),
+        Some("c11gen") => {
+            let n: Vec<u64> = args[1..4].iter().map(|s| s.parse().expect("number")).collect();
+            let mut rng = rng_for(n[0], n[1], n[2]);
+            let spec = gen_spec(&mut rng, n[1] + 5 * n[2]);
+            println!("{}", render(&spec));
+            Some(0)
+        }
+        Some("c11probe") => {
+            let src = std::fs::read_to_string(&args[1]).expect("read");
+            let dir = work_dir("C11probe").join("pkg");
+            clean_dir(&dir);
+            write_pkg(&dir, "gencontract", &src, true).expect("write");
+            for p in Profile::BOTH {
+                let t0 = std::time::Instant::now();
+                match run_unit_tests(&dir, p, 1, None) {
+                    Err(e) => {
+                        println!("{}: build failed: {e}", p.name());
+                        for d in diagnose_pkg(&dir, p) {
+                            println!("    {d}");
+                        }
+                        break;
+                    }
+                    Ok(run) => {
+                        println!("{}: built+ran in {:.1}s; slots:", p.name(), t0.elapsed().as_secs_f64());
+                        for s in &run.built.storage_slots {
+                            println!("   {} = {}", hex::encode(s.key().as_ref()), hex::encode(s.value().as_ref()));
+                        }
+                        for t in &run.tests {
+                            println!("  test {} passed={} outcome={:?} gas={}", t.name, t.passed, t.outcome, t.gas_used);
+                            for (id, rb, d) in &t.logs {
+                                println!("     {} rb={} {}", &id[..8], rb, hex::encode(d));
+                            }
+                        }
+                    }
+                }
+            }
+            Some(0)
+        }
+        _ => None,
+    }
+}
